@@ -270,6 +270,30 @@ func main() {
 		mw.ServeHTTP(httptest.NewRecorder(), httptest.NewRequest("GET", "/b", nil))
 		return [2]context.Context{got[0], got[1]}
 	}})
+	// two stacked CSS middlewares (site-wide registering c1 around a section one registering c2): one context, both registered
+	variants = append(variants, variant{"context A behind two stacked CSS middlewares registering c1 (outer) and c2 (inner)", []string{C1, C2}, func() [2]context.Context {
+		var got context.Context
+		next := http.HandlerFunc(func(w http.ResponseWriter, r *http.Request) { got = r.Context() })
+		inner := templ.NewCSSMiddleware(next, c2())
+		inner.Path = "/section/templ.css"
+		outer := templ.NewCSSMiddleware(inner, c1())
+		outer.ServeHTTP(httptest.NewRecorder(), httptest.NewRequest("GET", "/page", nil))
+		return [2]context.Context{got, templ.InitializeContext(context.Background())}
+	}})
+	// a layout handler that has already rendered script s1 with the request's context, then delegates to a handler behind
+	// a CSS middleware registering c1: what the layout emitted stays emitted
+	variants = append(variants, variant{"context A: a layout handler rendered script s1, then delegated through a CSS middleware registering c1", []string{C1, S1}, func() [2]context.Context {
+		var got context.Context
+		next := http.HandlerFunc(func(w http.ResponseWriter, r *http.Request) { got = r.Context() })
+		mw := templ.NewCSSMiddleware(next, c1())
+		layout := http.HandlerFunc(func(w http.ResponseWriter, r *http.Request) {
+			ctx := templ.InitializeContext(r.Context())
+			OpScript1().Render(ctx, w)
+			mw.ServeHTTP(w, r.WithContext(ctx))
+		})
+		layout.ServeHTTP(httptest.NewRecorder(), httptest.NewRequest("GET", "/page", nil))
+		return [2]context.Context{got, templ.InitializeContext(context.Background())}
+	}})
 	// stylesheet endpoint serves the registered rules
 	if _, sheet := middlewareCtx(c1(), c2()); !strings.Contains(sheet, "."+c1ID+"{") || !strings.Contains(sheet, "."+c2ID+"{") {
 		run.Violation("stylesheet-endpoint", "the CSS middleware's stylesheet endpoint does not serve the registered classes: "+vlib.Quote(sheet), map[string]any{"sheet": sheet})
@@ -375,7 +399,7 @@ func main() {
 	run.Sample(map[string]any{"history": []string{"ctxA: " + ops[7].name, "ctxB: " + ops[4].name, "ctxA: " + ops[4].name}, "expect": "third step emits no <style>: c1 already emitted in A; B unaffected"})
 	run.Sample(map[string]any{"op": ops[3].name, "fresh_output": fresh[3]})
 	run.Assumption("the reference model derives an operation's output in state S from its output in a fresh context by deleting the definitions of ids in S; the fresh output itself is checked for at-most-once, definition-before-use and presence of every use")
-	run.Finish(transitions, states, "BFS to closure over per-context emitted sets (2 scripts, 2 classes, 2 once handles, 2 contexts, 3 middleware variants) with 29 operations incl. wrappers, child blocks and repeated uses; plus every unmerged history ≤ N over 14 base operations × 2 contexts; distinct = model states")
+	run.Finish(transitions, states, "BFS to closure over per-context emitted sets (2 scripts, 2 classes, 2 once handles, 2 contexts, 6 context variants incl. shared, stacked and layout-then-middleware) with 29 operations incl. wrappers, child blocks and repeated uses; plus every unmerged history ≤ N over 14 base operations × 2 contexts; distinct = model states")
 }
 
 func clone(m map[string]bool) map[string]bool {
